@@ -33,6 +33,14 @@ Theorem C04_own_response_complete : forall max s t x kept,
 Proof. exact own_response_complete. Qed.
 Print Assumptions C04_own_response_complete.
 
+(* The pooled bufio.Reader a response is read through belongs to its call from AcquireReader on, and - when RoundTrip returns a
+   streamed body - to that body stream until the stream is closed (closeBodyStream): in every reachable state every call that
+   is reading or has an open body stream has a reader, that reader is not in the reader pool, and no other call has it.  So
+   whatever other calls do between Do returning and the body being read, they cannot Reset the reader a stream reads from. *)
+Theorem C04_stream_owns_reader : forall max s, reach max s -> readers_owned s.
+Proof. exact readers_owned_reach. Qed.
+Print Assumptions C04_stream_owns_reader.
+
 (* PipelineClient ([preach s]): any interleaving of callers enqueueing, the writer (deadline drop, write, push to chR, exit), the
    reader (pop, resp.Read symbol by symbol with SkipBody for HEAD, failure, exit), the worker (dial, teardown, drain) and the
    server (any delimited response per request, any speed, close at any point).  Caller timeouts do not touch the queues, so
@@ -57,7 +65,7 @@ Definition stream_get : opts := mkOpts KGet false true false.
 (* a streamed body (limit 1 unit) closed after one unit, exactly where a crafted response starts: the connection is closed,
    the next call dials; a call that reads to the end puts its connection back and the next call re-uses it *)
 Example C04_ex_early_close :
-  match run (init 1) [LAcquire 0 stream_get None; LWrite 0 false; LSrvRead (HeldBy 0) r2; LSrvSend (HeldBy 0); LSrvSend (HeldBy 0);
+  match run (init 1) [LAcquire 0 stream_get None; LWrite 0 false None; LSrvRead (HeldBy 0) r2; LSrvSend (HeldBy 0); LSrvSend (HeldBy 0);
                       LSrvSend (HeldBy 0); LRead 0; LStreamRead 0; LCloseStream 0 false] with
   | Some s => (length (s_idle s), delivered s 0) = (0, Some (stream_get, [(0, SHead (r_head r2)); (0, SBody (Some (mkHead (FLen 1) false false)))]))
   | None => False
@@ -65,9 +73,9 @@ Example C04_ex_early_close :
 Proof. vm_compute. reflexivity. Qed.
 
 Example C04_ex_read_to_end_reuse :
-  match run (init 1) [LAcquire 0 stream_get None; LWrite 0 false; LSrvRead (HeldBy 0) r2; LSrvSend (HeldBy 0); LSrvSend (HeldBy 0);
+  match run (init 1) [LAcquire 0 stream_get None; LWrite 0 false None; LSrvRead (HeldBy 0) r2; LSrvSend (HeldBy 0); LSrvSend (HeldBy 0);
                       LSrvSend (HeldBy 0); LRead 0; LStreamRead 0; LStreamRead 0; LCloseStream 0 false;
-                      LAcquire 1 plain_get (Some 0); LWrite 1 false; LSrvRead (HeldBy 1) r1; LSrvSend (HeldBy 1); LSrvSend (HeldBy 1);
+                      LAcquire 1 plain_get (Some 0); LWrite 1 false None; LSrvRead (HeldBy 1) r1; LSrvSend (HeldBy 1); LSrvSend (HeldBy 1);
                       LRead 1; LRead 1] with
   | Some s => (map c_id (s_idle s), option_map snd (delivered s 1)) = ([0], Some (twire 1 KGet r1))
   | None => False
@@ -77,8 +85,22 @@ Proof. vm_compute. reflexivity. Qed.
 (* GET with resp.SkipBody and a response that carries a (crafted) body: the body stays on the wire, so the connection is closed,
    not pooled (before the clause for skipped bodies was added to RoundTrip this history poisoned the pool) *)
 Example C04_ex_skip_get_closes :
-  match run (init 0) [LAcquire 0 skip_get None; LWrite 0 false; LSrvRead (HeldBy 0) crafted_resp; LSrvSend (HeldBy 0); LRead 0] with
-  | Some s => (length (s_idle s), s_thr s 0) = (0, TDone (mkCtx skip_get 0 false (Some (r_head crafted_resp)) [(0, SHead (r_head crafted_resp))]) OOk false)
+  match run (init 0) [LAcquire 0 skip_get None; LWrite 0 false None; LSrvRead (HeldBy 0) crafted_resp; LSrvSend (HeldBy 0); LRead 0] with
+  | Some s => (length (s_idle s), s_thr s 0) = (0, TDone (mkCtx skip_get 0 false (Some (r_head crafted_resp)) [(0, SHead (r_head crafted_resp))] (Some 0)) OOk false)
+  | None => False
+  end.
+Proof. vm_compute. reflexivity. Qed.
+
+(* two overlapping streamed calls: the second one dials, takes a NEW reader (the pool is empty: reader 0 is still the first stream's),
+   and each body is its own response; once stream 0 is closed its reader is back in the pool *)
+Example C04_ex_overlap :
+  match run (init 1) [LAcquire 0 stream_get None; LWrite 0 false None; LSrvRead (HeldBy 0) r2; LSrvSend (HeldBy 0); LSrvSend (HeldBy 0);
+                      LSrvSend (HeldBy 0); LRead 0;
+                      LAcquire 1 stream_get None; LWrite 1 false None; LSrvRead (HeldBy 1) r2; LSrvSend (HeldBy 1); LSrvSend (HeldBy 1);
+                      LSrvSend (HeldBy 1); LRead 1;
+                      LStreamRead 0; LStreamRead 0; LStreamRead 1; LStreamRead 1; LCloseStream 0 false] with
+  | Some s => (option_map snd (delivered s 0), option_map snd (delivered s 1), holds_reader (s_thr s 1), s_rfree s) =
+              (Some (twire 0 KGet r2), Some (twire 1 KGet r2), Some 1, [0])
   | None => False
   end.
 Proof. vm_compute. reflexivity. Qed.
